@@ -103,8 +103,11 @@ func (c *Ctx) finalize() {
 				n++
 			}
 		}
-		if n < mc.min {
-			c.add("vacuity", mc.rule, "min-instances", Undecided, "", fmt.Sprintf("rule matched %d instances, hand-confirmed minimum is %d (anchors moved or rule went vacuous)", n, mc.min))
+		// the hand-confirmed count is an anti-vacuity floor, not an exact census: folding two identical expressions
+		// into one temporary, or merging two guards, legitimately removes an instance or two. The rule is reported
+		// as (near-)vacuous when fewer than two thirds of the confirmed instances are left.
+		if floor := (2*mc.min + 2) / 3; n < floor {
+			c.add("vacuity", mc.rule, "min-instances", Undecided, "", fmt.Sprintf("rule matched %d instances, hand-confirmed count is %d (floor %d): anchors moved or rule went vacuous", n, mc.min, floor))
 		}
 	}
 }
